@@ -11,8 +11,12 @@ Record color := mkcolor { cr : f32; cg : f32; cb : f32; ca : f32 }.
 Record stop := mkstop { s_pos : f32; s_color : color }.
 
 (* NormalizedF32::new_clamped: finite -> clamp to [0,1] (clamp_f32 = max(min(n, 1), 0)), otherwise 0 *)
+(* (rustc's lowering of f32::max returns +0.0 for max(-0.0, +0.0) here: observed, tied by the correspondence) *)
 Definition new_clamped (n : f32) : f32 :=
-  if F32.is_finite n then F32.max (F32.min n F32.one) F32.zero else F32.zero.
+  if F32.is_finite n then
+    let r := F32.max (F32.min F32.one n) F32.zero in
+    if F32.eq r F32.zero then F32.zero else r
+  else F32.zero.
 
 Definition stop_new (pos : f32) (c : color) : stop := mkstop (new_clamped pos) c.
 
